@@ -29,8 +29,8 @@ def fmt(sc):
                 s += f":{e[4]}"
         elif e[1] == "insuff":
             s = f"{e[0]}:insuff"
-        elif e[1] == "rel":
-            s = f"{e[0]}:rel:{e[2]}"
+        elif e[1] in ("rel", "top", "tick"):
+            s = f"{e[0]}:{e[1]}:{e[2]}"
         else:
             s = f"{e[0]}:check:{e[2]}:{e[3]}"
         evs.append(s)
@@ -53,8 +53,8 @@ def parse(op):
                 evs.append([int(p[0]), "pub", int(p[2]), int(p[3]), int(p[4]) if len(p) > 4 else 1])
             elif p[1] == "insuff":
                 evs.append([int(p[0]), "insuff"])
-            elif p[1] == "rel":
-                evs.append([int(p[0]), "rel", int(p[2])])
+            elif p[1] in ("rel", "top", "tick"):
+                evs.append([int(p[0]), p[1], int(p[2])])
             else:
                 evs.append([int(p[0]), "check", int(p[2]), int(p[3])])
     return {"gate": kv.get("gate") == "1", "nomedium": kv.get("nomedium") == "1", "klp": int(kv["klp"]), "sps": int(kv["sps"]), "q": int(kv["q"]),
@@ -74,9 +74,11 @@ def deterministic(sc):
         # publications without markers / checks (an ended subscriber's removal is asynchronous)
         offs = [e[2] for e in sc["ev"] if e[1] == "pub"]
         return (sc["mode"] == "each" and all(b > a for a, b in zip(offs, offs[1:]))
-                and not any(e[1] in ("insuff", "check") or (e[1] == "pub" and e[4] != 1) for e in sc["ev"]))
+                and not any(e[1] in ("insuff", "check", "tick") or (e[1] == "pub" and e[4] != 1) for e in sc["ev"]))
     if sc["mode"] == "each":
         return True
+    if any(e[1] in ("tick", "top") for e in sc["ev"]):
+        return False
     if medium_enabled(sc) and sc["q"] and sc["delay"] == 0:
         return False                      # writer goroutine drains concurrently with the producer
     # burst without settling: once a positioned subscriber is in insufficient state its removal is
@@ -116,6 +118,44 @@ def gen_gated(rng):
     return {"gate": True, "nomedium": False, "klp": rng.randint(0, 1), "sps": rng.randint(0, 1), "q": 1,
             "qmax": rng.choice([0, 0, 0, 100000, 30]), "delay": 0, "subs": subs, "top": top, "mode": "each",
             "ev": evs, "end": t + 200}
+
+
+CHECK_DELAY = 40000
+
+
+def gen_sync(rng):
+    """Periodic position sync: several positioned subscribers, publications, then the broker's top moves on without
+    a delivery (lost trailing publication, no later traffic) and the subscribers' ticks arrive interleaved, each
+    subscriber's own ticks > 40 s apart but the medium seeing calls much closer together."""
+    top = rng.choice([0, 5, 10, 1000])
+    subs = [rng.choice(["p", "p", "s"]) for _ in range(rng.randint(2, 3))] + (["n"] if rng.random() < 0.4 else [])
+    q = rng.randint(0, 1)
+    evs, o, t = [], top, 100
+    for _ in range(rng.randint(1, 4)):
+        o += 1
+        evs.append([t, "pub", o, 10, 1])
+        t += rng.choice([10, 200, 1000])
+    lost = rng.random() < 0.8
+    t = rng.choice([2000, 20000, 30000, 36000])
+    if rng.random() < 0.6:
+        evs.append([t, "pub", o, 10, 1])                 # a stale copy: stamps the medium, not the clients
+        t += rng.choice([1, 500, 3000])
+    evs.append([t, "top", o + 1 if lost else o])
+    pos = [i for i, k in enumerate(subs) if k != "n"]
+    start = 42000 + rng.choice([0, 500, 2500])
+    gap = rng.choice([7000, 15000, 21000, 30000])
+    last = {}
+    t = max(t + 10, start)
+    for k in range(rng.randint(3, 9)):
+        i = pos[k % len(pos)] if rng.random() < 0.85 else rng.choice(pos)
+        if i in last and t - last[i] < 42000:
+            t = last[i] + 42000 + rng.choice([0, 300])
+        evs.append([t, "tick", i])
+        last[i] = t
+        t += gap + rng.choice([0, 137, 900])
+    return {"gate": False, "nomedium": rng.random() < 0.05, "klp": rng.randint(0, 1), "sps": 1 if rng.random() < 0.8 else 0,
+            "q": q, "qmax": 0, "delay": rng.choice([0, 0, 20]) if q else 0, "subs": subs, "top": top, "mode": "each",
+            "ev": evs, "end": t + 1000}
 
 
 def gen_queue(rng):
@@ -165,8 +205,11 @@ def oracle_queue(op, out):
 
 
 def gen(rng):
-    if rng.random() < 0.2:
+    r = rng.random()
+    if r < 0.2:
         return gen_gated(rng)
+    if r < 0.35:
+        return gen_sync(rng)
     klp, sps, q = (rng.randint(0, 1) for _ in range(3))
     delay = rng.choice([0, 0, 20, 50]) if q else (20 if rng.random() < 0.03 else 0)
     qmax = rng.choice([0, 15, 25, 40, 100]) if q else 0
@@ -265,6 +308,35 @@ def oracle(op, out):
         stream = bcp
     else:
         stream = incoming
+    # periodic sync: a position loss (broker top moved on, nothing delivered since) must be detected by the first
+    # real position check that is due: a tick that passes the client's own gate (≥ 42 s after that subscriber's
+    # previous tick and after the last delivery) and comes ≥ delay after the last stamp of the medium
+    tops = [(e[0], e[2]) for e in sc["ev"] if e[1] == "top"]
+    if tops and not any(e[1] == "check" for e in sc["ev"]):
+        t_loss, new_top = tops[-1]
+        arrivals = [e[0] for e in sc["ev"] if e[1] in ("pub", "insuff")]
+        t0 = max([t_loss] + arrivals)
+        last_tick, due = {}, None
+        for e in sc["ev"]:
+            if e[1] != "tick":
+                continue
+            prev = max([last_tick.get(e[2], 0)] + [a for a in arrivals if a <= e[0]])
+            counts = e[0] - prev >= 42000
+            last_tick[e[2]] = e[0]
+            if counts and e[0] >= t0 + CHECK_DELAY + 1000 and e[2] < len(subs) and subs[e[2]]["kind"] != "n":
+                due = e
+                break
+        if due is not None:
+            i = due[2]
+            shared = med and sc["sps"]
+            for j, sj in enumerate(subs):
+                if sj["kind"] == "n" or sj["end"] != "none" or sj["pos"] == str(new_top):
+                    continue
+                if j == i or shared:
+                    return (f"the broker's top moved to {new_top} at {t_loss} ms without a delivery; subscriber {i}'s tick at "
+                            f"{due[0]} ms was due for a real position check, yet positioned subscriber {j} is still "
+                            f"subscribed at position {sj['pos']} (position loss never detected)",
+                            dict(base, kind="loss-not-detected", shared=int(bool(shared))))
     for i, s in enumerate(subs):
         if "M" in s["pubs"]:
             return (f"subscriber {i} was pushed the MaxUint64 sentinel publication", dict(base, kind="sentinel-pushed", sub=s["kind"]))
